@@ -196,3 +196,48 @@ func CheckRegister(init int, ops []Op) (bool, string) {
 	_ = st{}
 	return run(fmt.Sprint("reg", init, "|"), model.ToModel(), ops)
 }
+
+// Group ties pseudo-operations of one composite call (AddSet, RemoveSet, Len) together:
+// exactly Count of them have Ok == true, which ones is left open.
+type Group struct {
+	Idx   []int // indices into ops
+	Count int
+}
+
+// CheckSetGroups is CheckSet with composite calls decomposed: it succeeds when some
+// assignment of the Ok flags inside every group, with the group's count, is linearizable.
+func CheckSetGroups(init [Keys]bool, ops []Op, groups []Group) (bool, string) {
+	var rec func(g int) (bool, string)
+	rec = func(g int) (bool, string) {
+		if g == len(groups) {
+			return CheckSet(init, ops)
+		}
+		gr := groups[g]
+		n := len(gr.Idx)
+		var last string
+		for mask := 0; mask < 1<<uint(n); mask++ {
+			c := 0
+			for i := 0; i < n; i++ {
+				if mask>>uint(i)&1 == 1 {
+					c++
+				}
+			}
+			if c != gr.Count {
+				continue
+			}
+			for i, ix := range gr.Idx {
+				ops[ix].Ok = mask>>uint(i)&1 == 1
+			}
+			if ok, d := rec(g + 1); ok {
+				return true, d
+			} else {
+				last = d
+			}
+		}
+		if last == "" {
+			last = fmt.Sprintf("a composite call reported a count of %d over %d elements", gr.Count, n)
+		}
+		return false, last
+	}
+	return rec(0)
+}
